@@ -38,7 +38,7 @@ type Vector struct {
 }
 
 func child() {
-	st, err := stack.Start(stack.Options{HandshakeTimeout: 2 * time.Second, IdleTimeout: 5 * time.Second})
+	st, err := stack.Start(stack.Options{HandshakeTimeout: 2 * time.Second, IdleTimeout: 5 * time.Second, ReadTimeout: readTimeout})
 	if err != nil {
 		fmt.Println("CHILD-ERROR", err)
 		os.Exit(3)
@@ -46,6 +46,87 @@ func child() {
 	fmt.Println("CHILD-ADDR", st.Addr)
 	io.Copy(io.Discard, os.Stdin)
 	os.Exit(0)
+}
+
+const readTimeout = 400 * time.Millisecond
+
+// stall scripts: a client that stops at a particular point and stays; the server's timers (handshake, read, idle) fire on
+// their own goroutines, where no per-connection recover reaches
+var stallScripts = []string{"h2-window0-get", "h2-half-post", "h2-preface-only", "h2-settings-only", "h1-partial-line", "h1-partial-body", "h1-unread-response", "tls-partial-hello", "h2-rst-then-idle"}
+
+func stall(addr, script string) (net.Conn, error) {
+	if script == "tls-partial-hello" {
+		raw, err := net.DialTimeout("tcp", addr, 2*time.Second)
+		if err != nil {
+			return nil, err
+		}
+		raw.Write([]byte{0x16, 0x03, 0x01, 0x02, 0x00, 0x01, 0x00, 0x01, 0xfc, 0x03, 0x03})
+		return raw, nil
+	}
+	alpn := "h2"
+	if strings.HasPrefix(script, "h1") {
+		alpn = "http/1.1"
+	}
+	tc, err := dial(addr, alpn)
+	if err != nil {
+		return nil, err
+	}
+	tc.SetDeadline(time.Now().Add(30 * time.Second))
+	get := func(sid uint32, end bool, method string) []byte {
+		return h2raw.Headers(sid, end, h2raw.Block([]h2raw.HF{{":method", method}, {":scheme", "https"}, {":authority", "vf.test"}, {":path", "/stall"}}), nil, 0)
+	}
+	switch script {
+	case "h2-window0-get": // the response cannot be sent: the stream outlives every timeout, with no request body
+		tc.Write([]byte(h2raw.Preface))
+		tc.Write(h2raw.Settings(h2raw.Setting{ID: 4, Val: 0}))
+		tc.Write(get(1, true, "GET"))
+	case "h2-half-post":
+		tc.Write([]byte(h2raw.Preface))
+		tc.Write(h2raw.Settings())
+		tc.Write(get(1, false, "POST"))
+	case "h2-preface-only":
+		tc.Write([]byte(h2raw.Preface))
+	case "h2-settings-only":
+		tc.Write([]byte(h2raw.Preface))
+		tc.Write(h2raw.Settings())
+	case "h2-rst-then-idle":
+		tc.Write([]byte(h2raw.Preface))
+		tc.Write(h2raw.Settings())
+		tc.Write(get(1, false, "POST"))
+		tc.Write(h2raw.RST(1, 8))
+	case "h1-partial-line":
+		io.WriteString(tc, "GET /stall HT")
+	case "h1-partial-body":
+		io.WriteString(tc, "POST /stall HTTP/1.1\r\nHost: vf.test\r\nContent-Length: 100\r\n\r\n0123456789")
+	case "h1-unread-response":
+		io.WriteString(tc, "GET /stall HTTP/1.1\r\nHost: vf.test\r\n\r\n")
+	}
+	return tc, nil
+}
+
+// runStalls starts every script (or just one), waits several read timeouts, then asks whether the process still serves
+func runStalls(ch *Child, only string) error {
+	var held []net.Conn
+	defer func() {
+		for _, c := range held {
+			c.Close()
+		}
+	}()
+	for _, sc := range stallScripts {
+		if only != "" && sc != only {
+			continue
+		}
+		c, err := stall(ch.addr, sc)
+		if err != nil {
+			return fmt.Errorf("stall script %s could not start: %v", sc, err)
+		}
+		held = append(held, c)
+	}
+	time.Sleep(5 * readTimeout)
+	if !ch.alive() {
+		return fmt.Errorf("process exited: %s", ch.exit)
+	}
+	return control(ch.addr)
 }
 
 type Child struct {
@@ -255,6 +336,38 @@ func main() {
 	const P = 8
 	var next int64 = -1
 	var killers []map[string]any
+	if report["error"] == nil {
+		if err := runStalls(ch, ""); err != nil {
+			why := err.Error()
+			ch.stop()
+			found := false
+			for _, sc := range stallScripts {
+				c2, e2 := startChild()
+				if e2 != nil {
+					break
+				}
+				if err := runStalls(c2, sc); err != nil {
+					s2 := c2.stderr.String()
+					if len(s2) > 1500 {
+						s2 = s2[:1500]
+					}
+					killers = append(killers, map[string]any{"frame_type": "STALL", "mode": sc, "open_header_block_on": 0, "bytes": "", "len": 0, "effect": err.Error(), "child_stderr_head": s2})
+					found = true
+				}
+				c2.stop()
+			}
+			if !found {
+				report["error"] = "child failed during the stall scripts (" + why + ") but no single script reproduces it"
+			}
+			report["killers"] = killers
+			report["outcomes"] = map[string]int{}
+			report["control_rounds"] = 0
+			b, _ := json.Marshal(report)
+			os.WriteFile(reportPath, b, 0o644)
+			return
+		}
+		report["stall_scripts"] = stallScripts
+	}
 	window := func(hi int) []*Vector { // what may have been in flight when trouble was noticed
 		lo := hi - 4*P
 		if lo < 0 {
